@@ -3,6 +3,7 @@ package drv
 import (
 	"fmt"
 	"sort"
+	"sync"
 	"sync/atomic"
 	"time"
 )
@@ -17,12 +18,15 @@ type ProcStep struct {
 // ProcScenario replays a behaviour of spec/win/ProcTumbling (or a free-running real-time input) on a
 // processing-time tumbling window of the real engine.
 type ProcScenario struct {
-	Tr     int        `json:"tr"`
-	SizeMs int64      `json:"size_ms"` // window size in milliseconds
-	Ticks  int64      `json:"ticks"`   // model: window size in model ticks (unit = SizeMs/Ticks)
-	Groups int        `json:"groups"`
-	Free   bool       `json:"free"` // no gate: the engine's own timer decides
-	Steps  []ProcStep `json:"steps"`
+	Tr      int        `json:"tr"`
+	SizeMs  int64      `json:"size_ms"` // window size in milliseconds
+	Ticks   int64      `json:"ticks"`   // model: window size in model ticks (unit = SizeMs/Ticks)
+	Groups  int        `json:"groups"`
+	Free    bool       `json:"free"`     // no gate: the engine's own timer decides
+	Kind    string     `json:"kind"`     // "" / "tumbling" | "sliding" (sliding: free-running only)
+	SlideMs int64      `json:"slide_ms"` // sliding: slide in milliseconds (size_ms is a multiple of it)
+	Timing  bool       `json:"timing"`   // judge how late after its interval's end a result arrives (few scenarios, run when the machine is not starved)
+	Steps   []ProcStep `json:"steps"`
 }
 
 // RunProc runs one scenario. The trace brackets every row's engine-side timestamp by [lo, hi] (µs since start).
@@ -43,16 +47,33 @@ func RunProc(sc ProcScenario) (evs []Ev, inconclusive string) {
 		v      int64
 	}
 	var pd atomic.Pointer[pend]
+	addHook := "tw.add"
+	if sc.Kind == "sliding" {
+		addHook = "sw.add"
+	}
+	startNsG := start.UnixNano()
+	gridNsG := sc.SizeMs * 1000000
+	if sc.Kind == "sliding" {
+		gridNsG = sc.SlideMs * 1000000
+		sc.Free = true
+	}
 	in.OnHook = func(point string, a, b, c int64) Ev {
-		if point == "tw.add" {
+		if point == addHook {
 			if p := pd.Load(); p != nil && p.id == cur.Load() {
-				return Ev{"tr": sc.Tr, "e": "add", "id": p.id, "g": p.g, "v": p.v, "lo": p.lo, "hi": us() + 1}
+				hi := us() + 1
+				return Ev{"tr": sc.Tr, "e": "add", "id": p.id, "g": p.g, "v": p.v, "lo": p.lo, "hi": hi,
+					"klo": clamp32(floorDiv(startNsG+p.lo*1000, gridNsG) - floorDiv(startNsG, gridNsG)), "khi": clamp32(floorDiv(startNsG+hi*1000, gridNsG) - floorDiv(startNsG, gridNsG))}
 			}
 		}
 		return nil
 	}
 	s := newInstance()
 	sql := fmt.Sprintf("SELECT g, count(*) AS c, sum(v) AS s, collect(id) AS ids, window_start() AS ws, window_end() AS we FROM stream GROUP BY g, TumblingWindow('%dms')", sc.SizeMs)
+	gridNs := sc.SizeMs * 1000000 // the grid the interval starts lie on
+	if sc.Kind == "sliding" {
+		sql = fmt.Sprintf("SELECT g, count(*) AS c, sum(v) AS s, collect(id) AS ids, window_start() AS ws, window_end() AS we FROM stream GROUP BY g, SlidingWindow('%dms','%dms')", sc.SizeMs, sc.SlideMs)
+		gridNs = sc.SlideMs * 1000000
+	}
 	if err := s.Execute(sql); err != nil {
 		return nil, "execute: " + err.Error()
 	}
@@ -60,7 +81,8 @@ func RunProc(sc ProcScenario) (evs []Ev, inconclusive string) {
 	defer s.Stop()
 	w := s.Stream().Window
 	in.Bind(s.Stream(), w)
-	in.Log(Ev{"tr": sc.Tr, "e": "reset", "kind": "proctumbling", "size": sc.SizeMs * 1000, "free": b2i(sc.Free)})
+	in.Log(Ev{"tr": sc.Tr, "e": "reset", "kind": "proc" + map[bool]string{true: "sliding", false: "tumbling"}[sc.Kind == "sliding"], "size": sc.SizeMs * 1000, "slide": sc.SlideMs * 1000,
+		"n": sc.SizeMs / max64(sc.SlideMs, 1), "free": b2i(sc.Free), "timing": b2i(sc.Timing)})
 	sizeNs := sc.SizeMs * 1000000
 	startNs := start.UnixNano()
 	s.AddSyncSink(func(rs []map[string]any) {
@@ -80,8 +102,9 @@ func RunProc(sc ProcScenario) (evs []Ev, inconclusive string) {
 			e["ws"] = floorDiv(wsn-startNs, 1000)
 			e["we"] = -floorDiv(-(wen - startNs), 1000)
 			e["spanerr"] = clamp32(wen - wsn - sizeNs)
-			e["gridrem"] = clamp32((wsn%sizeNs + sizeNs) % sizeNs) // epoch alignment of the interval start
-			e["wsx"] = clamp32(floorDiv(wsn, sizeNs) - floorDiv(startNs, sizeNs))
+			e["gridrem"] = clamp32((wsn%gridNs + gridNs) % gridNs) // epoch alignment of the interval start
+			e["wsx"] = clamp32(floorDiv(wsn, gridNs) - floorDiv(startNs, gridNs))
+			e["late"] = clamp32((time.Now().UnixNano() - wen) / 1000) // microseconds between the interval's end and this delivery
 			for _, k := range []string{"c", "s"} {
 				if n, ok := toI64(r[k]); ok {
 					e[k] = n
@@ -136,7 +159,7 @@ func RunProc(sc ProcScenario) (evs []Ev, inconclusive string) {
 			cur.Store(st.ID)
 			s.Emit(map[string]any{"id": st.ID, "g": g, "v": v})
 			n := nAdd
-			if !in.WaitFor(T, func() bool { return in.C("tw.add") >= n }) {
+			if !in.WaitFor(T, func() bool { return in.C(addHook) >= n }) {
 				return in.Events(), "add not processed"
 			}
 		case "adv":
@@ -164,7 +187,11 @@ func RunProc(sc ProcScenario) (evs []Ev, inconclusive string) {
 				return in.Events(), "trigger did not complete"
 			}
 		case "sleep":
+			t0 := time.Now()
 			time.Sleep(time.Duration(st.Gap) * time.Microsecond)
+			if over := time.Since(t0) - time.Duration(st.Gap)*time.Microsecond; over > 60*time.Millisecond {
+				starvedFlag.Store(int64(sc.Tr), true)
+			}
 		}
 	}
 	in.Disarm()
@@ -181,11 +208,19 @@ func RunProc(sc ProcScenario) (evs []Ev, inconclusive string) {
 		}
 		return n
 	}
-	for time.Now().Before(deadline) {
-		if reported() >= nAdd {
-			break
+	if sc.Kind == "sliding" {
+		// every covering interval of the last row has fired one window size and one slide after it (plus slack)
+		time.Sleep(time.Duration(sc.SizeMs+3*sc.SlideMs)*time.Millisecond + 150*time.Millisecond)
+		if sc.Starved() {
+			in.Log(Ev{"tr": sc.Tr, "e": "void", "why": "the driver itself was starved of CPU (a sleep overshot by more than 60 ms)"})
 		}
-		time.Sleep(2 * time.Millisecond)
+	} else {
+		for time.Now().Before(deadline) {
+			if reported() >= nAdd {
+				break
+			}
+			time.Sleep(2 * time.Millisecond)
+		}
 	}
 	// let a possible duplicate / extra delivery show up: one more timer period
 	time.Sleep(time.Duration(sc.SizeMs)*time.Millisecond + 10*time.Millisecond)
@@ -194,6 +229,21 @@ func RunProc(sc ProcScenario) (evs []Ev, inconclusive string) {
 		return in.Events(), "a gate timed out"
 	}
 	return in.Events(), ""
+}
+
+var starvedFlag sync.Map
+
+// Starved reports whether one of the driver's own sleeps overshot badly (the machine was starved of CPU).
+func (sc ProcScenario) Starved() bool {
+	_, ok := starvedFlag.Load(int64(sc.Tr))
+	return ok
+}
+
+func max64(a, b int64) int64 {
+	if a > b {
+		return a
+	}
+	return b
 }
 
 func clamp32(n int64) int64 {
